@@ -36,6 +36,9 @@ def _setup():
     return _arch
 
 
+_LONG: dict = {}
+
+
 def consumers(buf: bytes, addr: int, arch=None):
     """Run the 4 real consumers. Returns (outcome, errors).
     outcome = dict(info=(len, branches)|None, text=(len, mnemonic, tokens)|None, il=(len, shape)|None,
@@ -267,6 +270,37 @@ def run_shard(spec) -> Result:
                               {"buf": buf.hex(), "twin": tw.hex(), "addr": addr},
                               {"fresh_object": repr(want)[:300], "after_previous_query": repr(got)[:300]})
             consumers(buf, addr)    # leave the shared object as the history test below expects
+        # the emulator's fetch path on ONE long-lived Emulator: a NOP one byte below is fetched while the twin's bytes sit
+        # at this address, then the bytes change and this address is fetched in line (address = previous + length)
+        if acc is not None and acc["info"] and n % 4 == 1 and addr >= 1:
+            from ..pyside import FlatMem
+            from sc62015.pysc62015.emulator import Emulator
+            L = acc["info"][0]
+            tw = bytearray(buf)
+            tw[L - 1] ^= 0x11
+            if L == 1:
+                tw[0] = 0x00 if buf[0] != 0x00 else 0x08
+            long_emu = _LONG.get("emu")
+            if long_emu is None:
+                long_emu = _LONG["emu"] = Emulator(FlatMem(log=False), reset_on_init=False)
+            try:
+                m1 = FlatMem(log=False)
+                m1.load_bytes(addr - 1, b"\x00" + bytes(tw))
+                long_emu.memory = m1
+                long_emu.decode_instruction(addr - 1)
+                m2 = FlatMem(log=False)
+                m2.load_bytes(addr - 1, b"\x00" + buf)
+                long_emu.memory = m2
+                ins = long_emu.decode_instruction(addr)
+                got = (ins.length(), ins.name())
+            except BaseException as e:  # noqa: BLE001
+                got = ("ERR", type(e).__name__)
+            res.monitor("emulator_inline_refetch")
+            if got != out.get("emu"):
+                res.violation({"clause": "history_dependent", "how": "emulator_inline_refetch",
+                               "op": f"{head[1]:02X}" if head[1] is not None else "--"},
+                              {"buf": buf.hex(), "bytes_seen_by_predecessor": bytes(tw).hex(), "addr": addr},
+                              {"fresh_emulator": repr(out.get("emu")), "long_lived_emulator": repr(got)})
         history.append((buf, addr, out))
         if len(history) > 7:
             ob, oa, oo = history.pop(0)
